@@ -34,7 +34,11 @@ var allSpecs = []HarnessSpec{
 	{Prop: "C05", Func: "ZZ_H_History", Tag: "prop=5,two-generates", POR: true, Replay: "native", Params: map[string]int{"prop": 5, "steps": 2, "slim": 1, "gen_history": 1, "__coarse": 1}},
 	{Prop: "C04", Func: "ZZ_H_History", Tag: "prop=4,query-between-runs", POR: true, Replay: "native", Params: map[string]int{"prop": 4, "steps": 3, "slim": 1, "query_history": 1, "__coarse": 1}},
 	{Prop: "C05", Func: "ZZ_H_History", Tag: "prop=5,query-between-runs", POR: true, Replay: "native", Params: map[string]int{"prop": 5, "steps": 3, "slim": 1, "query_history": 1, "__coarse": 1}},
+	{Prop: "C05", Func: "ZZ_C05_ChecksumFraming", Replay: "native", Twin: true},
+	{Prop: "C05", Func: "ZZ_H_History", Tag: "prop=5,source-removed", POR: true, Replay: "native", Params: map[string]int{"prop": 5, "steps": 2, "slim": 1, "removal_history": 1, "__coarse": 1}},
 	{Prop: "C05", Func: "ZZ_H_History", Tag: "prop=5,with-status", POR: true, Replay: "native", Params: map[string]int{"prop": 5, "steps": 2, "slim": 1, "status_history": 1, "__coarse": 1}},
+	{Prop: "C12", Pkg: "cmd/task", Func: "ZZ_C12_QueryFlagsMeanDry", Replay: "native", ReplayPkg: "args", ReplayFunc: "ZZ_C12_QueryFlags_native", Twin: true},
+	{Prop: "C05", Pkg: "cmd/task", Func: "ZZ_C12_QueryFlagsMeanDry", Replay: "native", ReplayPkg: "args", ReplayFunc: "ZZ_C12_QueryFlags_native"},
 	{Prop: "C12", Func: "ZZ_H_History", Tag: "prop=12", POR: true, Replay: "native", Twin: true, Params: map[string]int{"prop": 12, "steps": 2, "__coarse": 1}, TParams: map[string]int{"steps": 3, "slim": 1}},
 	{Prop: "C03", Func: "ZZ_C03_FailStop", Tag: "shape=7", POR: true, Replay: "native", Params: map[string]int{"shape": 7, "__coarse": 1}},
 	{Prop: "C03", Func: "ZZ_C03_FailStop", Tag: "shape=6", POR: true, Replay: "native", Params: map[string]int{"shape": 6, "failing": 2, "__coarse": 1}},
@@ -52,6 +56,8 @@ var allSpecs = []HarnessSpec{
 	{Prop: "C07", Func: "ZZ_C07_Concurrency", Tag: "shape=2", POR: true, Replay: "native", Params: map[string]int{"shape": 2, "maxconc": 2, "__coarse": 1}},
 	{Prop: "C07", Func: "ZZ_C07_Concurrency", Tag: "shape=2,failing", POR: true, Replay: "native", Params: map[string]int{"shape": 2, "maxconc": 1, "failing": 1, "__coarse": 1}},
 	{Prop: "C07", Func: "ZZ_C07_CallLimit", Replay: "native", Twin: true},
+	{Prop: "C07", Func: "ZZ_C07_FailingDynamicVar", POR: true, Replay: "native", Twin: true, Params: map[string]int{"__coarse": 1}},
+	{Prop: "C07", Func: "ZZ_C07_Cycle", POR: true, Replay: "native", Twin: true, Params: map[string]int{"__coarse": 1}},
 	{Prop: "C11", Func: "ZZ_C11_DynamicVar", Replay: "native", Twin: true},
 	{Prop: "C11", Func: "ZZ_C11_Deferred", Replay: "native", Twin: true},
 	{Prop: "C11", Func: "ZZ_C11_Isolation", Replay: "native", Twin: true},
@@ -74,11 +80,13 @@ var allSpecs = []HarnessSpec{
 	{Prop: "C10", Pkg: "", Func: "ZZ_C10_Vars", Replay: "native", Twin: true},
 	{Prop: "C10", Pkg: "", Func: "ZZ_C10_Env", Replay: "native", Twin: true},
 	{Prop: "C15", Pkg: "", Func: "ZZ_C15_Resolve", Replay: "native", Twin: true, Params: map[string]int{"tasks": 2, "namelen": 3, "reqlen": 3}, TParams: map[string]int{"tasks": 2, "namelen": 3, "reqlen": 4}},
+	{Prop: "C15", Pkg: "", Func: "ZZ_C15_MatchVerbatim", Replay: "native", Twin: true, Params: map[string]int{"__tmplsym": 1}},
 	{Prop: "C15", Pkg: "", Func: "ZZ_C15_TableOrder", Replay: "native", Twin: true},
 	{Prop: "C15", Pkg: "", Func: "ZZ_C15_Fuzzy", Replay: "native", Twin: true},
 	{Prop: "C16", Pkg: "taskfile/ast", Func: "ZZ_C16_Unmarshal", Replay: "native", Twin: true, Params: map[string]int{"depth": 0, "maxitems": 1}, TParams: map[string]int{"depth": 0, "maxitems": 2, "__maxpaths": 3000000}},
 	{Prop: "C16", Pkg: "taskfile/ast", Func: "ZZ_C16_Merge", Replay: "native", Twin: true},
 	{Prop: "C16", Func: "ZZ_C16_Compile", Replay: "native", Twin: true},
+	{Prop: "C16", Pkg: "internal/deepcopy", Func: "ZZ_C16_Traverse", Replay: "native", Twin: true},
 	{Prop: "C16", Pkg: "internal/execext", Func: "ZZ_C16_Expand", Replay: "native", Twin: true},
 	{Prop: "C16", Pkg: "taskfile", Func: "ZZ_C16_GitNode", Replay: "native", Twin: true},
 	{Prop: "C16", Pkg: "taskfile", Func: "ZZ_C16_Snippet", Replay: "native", Twin: true},
@@ -95,11 +103,11 @@ var allSpecs = []HarnessSpec{
 	{Prop: "C18", Func: "ZZ_C18_Compile", POR: true, Replay: "native-race", Twin: true, Params: map[string]int{"__coarse": 1, "__race": 1}},
 	{Prop: "C18", Pkg: "internal/output", Func: "ZZ_C17_Prefixed", Tag: "race", POR: true, Replay: "native-race", Params: map[string]int{"maxchunks": 1, "__coarse": 1, "__race": 1}},
 	{Prop: "C18", Pkg: "internal/output", Func: "ZZ_C17_Group", Tag: "race", POR: true, Replay: "native-race", Params: map[string]int{"maxchunks": 1, "__coarse": 1, "__race": 1}},
-	{Prop: "C19", Pkg: "args", Func: "ZZ_C19_Get", Replay: "native", Twin: true, TParams: map[string]int{"arglen": 8, "maxpost": 4}},
-	{Prop: "C19", Pkg: "args", Func: "ZZ_C19_Parse", Replay: "native", Twin: true, TParams: map[string]int{"arglen": 8, "maxpost": 4}},
+	{Prop: "C19", Pkg: "args", Func: "ZZ_C19_Get", Replay: "native", Twin: true, TParams: map[string]int{"arglen": 6}},
+	{Prop: "C19", Pkg: "args", Func: "ZZ_C19_Parse", Replay: "native", Twin: true},
 	{Prop: "C19", Pkg: "args", Func: "ZZ_C19_Dialect", Replay: "native", Twin: true},
-	{Prop: "C19", Pkg: "args", Func: "ZZ_C19_Forward", Replay: "native", Twin: true, Params: map[string]int{"__tmplsym": 1}, TParams: map[string]int{"arglen": 8}},
-	{Prop: "C19", Pkg: "cmd/task", Func: "ZZ_C19_CLI", Replay: "native", ReplayPkg: "args", ReplayFunc: "ZZ_C19_CLI_native", Twin: true, Params: map[string]int{"__tmplsym": 1}, TParams: map[string]int{"arglen": 8}},
+	{Prop: "C19", Pkg: "args", Func: "ZZ_C19_Forward", Replay: "native", Twin: true, Params: map[string]int{"__tmplsym": 1}, TParams: map[string]int{"arglen": 6}},
+	{Prop: "C19", Pkg: "cmd/task", Func: "ZZ_C19_CLI", Replay: "native", ReplayPkg: "args", ReplayFunc: "ZZ_C19_CLI_native", Twin: true, Params: map[string]int{"__tmplsym": 1}, TParams: map[string]int{"arglen": 6}},
 	{Prop: "C19", Pkg: "cmd/task", Func: "ZZ_C19_Init", Replay: "native", ReplayPkg: "args", ReplayFunc: "ZZ_C19_Init_native", Twin: true},
 }
 
